@@ -2636,8 +2636,73 @@ class ProgramNormalizer:
             node.body = [brk] + node.body
             n += 1
 
+        def match_to_if(st):
+            """match SUBJ: case <value | None | A | B | _ | name> [if G]: …   ->   the if/elif chain with the same tests in the same order"""
+            if not isinstance(st, ast.Match):
+                return None
+            subj = st.subject
+            pre = []
+            if not simple(subj):
+                return None
+
+            def test_of(p):
+                if isinstance(p, ast.MatchValue):
+                    return ast.Compare(left=copy.deepcopy(subj), ops=[ast.Eq()], comparators=[p.value])
+                if isinstance(p, ast.MatchSingleton):
+                    return ast.Compare(left=copy.deepcopy(subj), ops=[ast.Is()], comparators=[ast.Constant(value=p.value)])
+                if isinstance(p, ast.MatchOr):
+                    parts = [test_of(x) for x in p.patterns]
+                    if any(x is None or x is True for x in parts):
+                        return None
+                    return ast.BoolOp(op=ast.Or(), values=parts)
+                if isinstance(p, ast.MatchAs) and p.pattern is None:
+                    return True
+                return None
+
+            chain = []
+            for case in st.cases:
+                t = test_of(case.pattern)
+                if t is None:
+                    return None
+                body = list(case.body)
+                if t is True and isinstance(case.pattern, ast.MatchAs) and case.pattern.name:
+                    if case.guard is not None:
+                        return None
+                    body = [ast.Assign(targets=[ast.Name(id=case.pattern.name, ctx=ast.Store())], value=copy.deepcopy(subj), type_comment=None)] + body
+                if case.guard is not None:
+                    t = case.guard if t is True else ast.BoolOp(op=ast.And(), values=[t, case.guard])
+                chain.append((t, body))
+            node = None
+            for t, body in reversed(chain):
+                if t is True:
+                    node = body
+                else:
+                    new = ast.If(test=t, body=body, orelse=(node if isinstance(node, list) else ([node] if node is not None else [])))
+                    node = new
+            if isinstance(node, list):
+                return pre + node
+            return pre + ([node] if node is not None else [])
+
         def visit(node):
             nonlocal n
+            for field in ("body", "orelse", "finalbody"):
+                v = getattr(node, field, None)
+                if isinstance(v, list) and any(isinstance(x, ast.Match) for x in v):
+                    out = []
+                    for x in v:
+                        r = match_to_if(x) if isinstance(x, ast.Match) else None
+                        if r is None:
+                            out.append(x)
+                        else:
+                            for y in r:
+                                ast.copy_location(y, x)
+                                ast.fix_missing_locations(y)
+                            out.extend(r)
+                            n += 1
+                    setattr(node, field, out)
+            if isinstance(node, ast.Match):
+                for case in node.cases:
+                    visit(case)
             if isinstance(node, ast.For):
                 takewhile(node)
             for field in ("body", "orelse", "finalbody"):
